@@ -78,6 +78,40 @@ pub fn vx_uninit_bytes_mut<T: ByteValued>(m: &mut MaybeUninit<T>, n: usize) -> (
     requires n <= T::ssize(), // [C04.reader.read_obj.window_in_bounds]
     ensures r@.len() == n, final(m).bytes() =~= final(r)@ + old(m).bytes().skip(n as int),
 { unimplemented!() }
+// ---- std::io::IoSlice: a borrowed byte slice (`Deref<Target = [u8]>`); text of the model shared with unit fusedevw
+pub struct IoSlice<'a> { pub b: &'a [u8] }
+impl<'a> IoSlice<'a> {
+    pub fn new(b: &'a [u8]) -> (r: IoSlice<'a>) ensures r.b@ == b@ { IoSlice { b } }
+    pub fn len(&self) -> (r: usize) ensures r == self.b@.len() { self.b.len() }
+    pub fn is_empty(&self) -> (r: bool) ensures r == (self.b@.len() == 0) { self.b.len() == 0 }
+}
+impl<'a> std::ops::Deref for IoSlice<'a> {
+    type Target = [u8];
+    fn deref(&self) -> (r: &[u8]) ensures r@ == self.b@ { self.b }
+}
+pub open spec fn ios_concat(s: Seq<IoSlice<'_>>) -> Seq<u8> decreases s.len() {
+    if s.len() == 0 { Seq::<u8>::empty() } else { s[0].b@ + ios_concat(s.skip(1)) }
+}
+pub proof fn lemma_ios_concat_append(a: Seq<IoSlice<'_>>, b: Seq<IoSlice<'_>>)
+    ensures ios_concat(a + b) =~= ios_concat(a) + ios_concat(b)
+    decreases a.len()
+{
+    if a.len() == 0 { assert(a + b =~= b); }
+    else { assert((a + b).skip(1) =~= a.skip(1) + b); lemma_ios_concat_append(a.skip(1), b); }
+}
+pub proof fn lemma_ios_take_next(s: Seq<IoSlice<'_>>, i: int)
+    requires 0 <= i < s.len()
+    ensures ios_concat(s.take(i + 1)) =~= ios_concat(s.take(i)) + s[i].b@,
+            ios_concat(s.take(i)).len() + s[i].b@.len() <= ios_concat(s).len(),
+{
+    assert(s.take(i + 1) =~= s.take(i) + seq![s[i]]);
+    lemma_ios_concat_append(s.take(i), seq![s[i]]);
+    assert(seq![s[i]].skip(1) =~= Seq::<IoSlice<'_>>::empty());
+    reveal_with_fuel(ios_concat, 2);
+    assert(ios_concat(seq![s[i]]) =~= s[i].b@);
+    assert(s =~= s.take(i + 1) + s.skip(i + 1));
+    lemma_ios_concat_append(s.take(i + 1), s.skip(i + 1));
+}
 pub proof fn lemma_bytes_at_concat(a: Seq<int>, b: Seq<int>)
     ensures bytes_at(a + b) =~= bytes_at(a) + bytes_at(b)
 { }
@@ -143,6 +177,104 @@ def reader_fns(tok):
                       splices=[('^', 'after', 'broadcast use axiom_mut_slice_len, axiom_sbytes_len;')]),
                    ['read_exact'])
     return [read, raw_with_canary('read_exact', std_read_exact, ['C04']), read_obj]
+
+
+def moved_contract(op, total):
+    """write_vectored / write_obj / write_all: several `write` calls; `total` = the number of bytes to be written"""
+    return [
+        # C17 (1)+(2): whatever happens, the log grows by exactly the addresses the cursor moved over (every completed part included);
+        # C04: the cursor moves forward over a prefix of the reply space, by exactly `total` when the operation succeeds
+        '''%s ==> ({ let n = final(self).buffers.bytes_consumed - old(self).buffers.bytes_consumed;
+                        0 <= n <= %s && n <= %s.len() && cells(final(self).buffers.buffers@) =~= %s.skip(n)
+                        && final(dm).marked =~= old(dm).marked + %s.subrange(0, n) && (r is Ok ==> n == %s) }) // [C17.%s.written_marked_exactly]''' % (NO_OVF, total, OLDW, OLDW, OLDW, total, op),
+        # "an operation that would exceed the remaining space fails without writing"
+        '%s && %s > %s.len() ==> r is Err && %s && %s // [C04.%s.exceeds_fails]' % (NO_OVF, total, OLDW, STAYS, UNMARKED, op),
+    ]
+
+
+# loop annotation shared by write_vectored's loop and the std write_all: `done` = the bytes written so far (exec or ghost expression)
+def moved_inv(done, tag):
+    return '''novf == (bc0 + all.len() <= usize::MAX), all == cells(old(self).buffers.buffers@), bc0 == old(self).buffers.bytes_consumed, m0 == old(dm).marked,
+                novf ==> %(d)s <= all.len() && self.buffers.bytes_consumed == bc0 + %(d)s
+                    && cells(self.buffers.buffers@) =~= all.skip(%(d)s as int) && dm.marked =~= m0 + all.subrange(0, %(d)s as int), // [%(t)s]''' % dict(d=done, t=tag)
+
+
+MOVED_ENTRY = '''let ghost all = cells(self.buffers.buffers@); let ghost bc0 = self.buffers.bytes_consumed; let ghost m0 = dm.marked; let ghost novf = bc0 + all.len() <= usize::MAX;
+        proof { assert(all.skip(0) =~= all); assert(all.subrange(0, 0) =~= Seq::<int>::empty()); }'''
+
+
+def moved_step(k):
+    """facts about the cursor `k` bytes in, needed to combine the contract of one `write` with the loop invariant"""
+    return '''proof {
+                if novf { assert(self.buffers.bytes_consumed + all.skip(%(k)s).len() <= usize::MAX); }
+                assert forall|n: int| 0 <= n && %(k)s + n <= all.len() implies #[trigger] all.skip(%(k)s).subrange(0, n) =~= all.subrange(%(k)s, %(k)s + n)
+                    && all.subrange(0, %(k)s) + all.subrange(%(k)s, %(k)s + n) =~= all.subrange(0, %(k)s + n) && #[trigger] all.skip(%(k)s).skip(n) =~= all.skip(%(k)s + n) by { }
+            }''' % dict(k=k)
+
+
+# std::io::Write::write_all - the DEFAULT method VirtioFsWriter inherits (library/std/src/io/mod.rs, rustc 1.95 / nightly 2026-08), copied by
+# hand as unit fusedevw does (TRUSTED copy of std text: the `mut buf` parameter rebound (`data` -> `let mut buf = data;`), `e.is_interrupted()`
+# written out as `e.kind() == ErrorKind::Interrupted`, `Error::WRITE_ALL_EOF` written out as the error it denotes).  VERIFIED against its
+# contract on top of the contract of `write` (proved in unit virtiofsw).
+def std_write_all(canary=False):
+    ens = moved_contract('vwrite_all', 'data@.len()') + (['false // [canary]'] if canary else [])
+    return '''
+    #[verifier::exec_allows_no_decreases_clause]
+    fn write_all%s(&mut self, data: &[u8], Tracked(dm): Tracked<&mut DirtyLog>) -> (r: io::Result<()>)
+        ensures
+            %s
+    {
+        %s
+        let mut buf = data;
+        while !buf.is_empty()
+            invariant
+                buf@.len() <= data@.len(),
+                // a request beyond the remaining space: the first `write` refuses it, nothing has moved, nothing is marked
+                novf && data@.len() > all.len() ==> buf@ == data@ && self.buffers.buffers@ == old(self).buffers.buffers@ && dm.marked == m0, // [C04.vwrite_all.loop.exceeds_fails]
+                %s
+        {
+            let ghost k = data@.len() - buf@.len();
+            %s
+            match self.write(buf, Tracked(dm)) {
+                Ok(0) => { return Err(io::Error::new(io::ErrorKind::WriteZero, "failed to write whole buffer")); }
+                Ok(n) => buf = &buf[n..],
+                Err(ref e) if e.kind() == io::ErrorKind::Interrupted => {}
+                Err(e) => return Err(e),
+            }
+        }
+        Ok(())
+    }
+''' % ('__canary' if canary else '', _clauses(ens), MOVED_ENTRY, moved_inv('(data@.len() - buf@.len())', 'C17.vwrite_all.loop'), moved_step('k'))
+
+
+def writer_fns(P):
+    tok = P['tok']
+    SW = "impl<'a, S: BitmapSlice> VirtioFsWriter<'a, S>"
+    SWIO = "impl<S: BitmapSlice> io::Write for VirtioFsWriter<'_, S>"
+    assumed = [VW.as_external(f) for f in P['writer'] if f.name in ('check_available_space', 'write')]      # proved in unit virtiofsw (same clause text)
+    TOTAL = 'ios_concat(bufs@).len()'
+    wv = tok(Fn(V, SWIO, 'write_vectored', props=['C17'], canary=True,
+                # the total must be a usize: the real fold adds with `+` (debug build: panic, release build: wrap-around) - as for FuseDevWriter
+                requires=['%s <= usize::MAX // [C04.vwrite_vectored.total_representable]' % TOTAL],
+                ensures=moved_contract('vwrite_vectored', TOTAL) + ['r is Ok ==> r->Ok_0 == %s // [C04.vwrite_vectored.amount]' % TOTAL],
+                splices=[('^', 'after', "proof { assert(bufs@.take(0) =~= Seq::<IoSlice<'_>>::empty()); assert(bufs@.take(bufs@.len() as int) =~= bufs@); } " + MOVED_ENTRY),
+                         ('for x in bufs.iter() {', 'replace', '''for x in it: bufs.iter()
+            invariant ios_concat(bufs@).len() <= usize::MAX, bufs@.take(bufs@.len() as int) =~= bufs@,
+                acc == ios_concat(bufs@.take(it.index@ as int)).len(), // [C04.vwrite_vectored.sum]
+        { proof { lemma_ios_take_next(bufs@, it.index@ as int); }'''),
+                         ('for buf in bufs.iter() {', 'replace', '''for buf in it: bufs.iter()
+            invariant ios_concat(bufs@).len() <= usize::MAX, bufs@.take(bufs@.len() as int) =~= bufs@,
+                novf ==> ios_concat(bufs@).len() <= all.len(), // [C04.vwrite_vectored.loop.space]
+                count == ios_concat(bufs@.take(it.index@ as int)).len(), // [C04.vwrite_vectored.loop.amount]
+                ''' + moved_inv('count', 'C17.vwrite_vectored.loop') + '''
+        { proof { lemma_ios_take_next(bufs@, it.index@ as int); } ''' + moved_step('(count as int)'))]),
+             ['write'])
+    wv.rules = wv.rules + ('R40', 'R42')
+    wo = tok(Fn(V, SW, 'write_obj', props=['C17'], canary=True,
+                ensures=moved_contract('vwrite_obj', 'T::ssize()'),
+                splices=[('^', 'after', 'broadcast use axiom_sbytes_len;')]),
+             ['write_all'])
+    return assumed + [wv, raw_with_canary('write_all', std_write_all, ['C17']), wo]
 
 
 def exact_contract(op, n, delivered):
@@ -246,5 +378,6 @@ def unit(root='/repo'):
         Raw(MODEL3),
         Group("impl<'a, S: BitmapSlice> IoBuffers<'a, S> {", io_group),
         Group("impl<'a, S: BitmapSlice> Reader<'a, S> {", reader_fns(tok)),
+        Group("impl<'a, S: BitmapSlice> VirtioFsWriter<'a, S> {", writer_fns(P)),
     ]
     return Unit('readerrd', items, preludes=['base.rs'])
